@@ -54,7 +54,8 @@ Eval ==
                                  [inside |-> Cardinality(InsideSet(objs[i].box, ObjScale(objs[i], cfg))),
                                   boundary |-> Cardinality(BoundarySet(objs[i].box, ObjScale(objs[i], cfg))),
                                   statuses |-> Statuses(objs[i], cfg), scale |-> ObjScale(objs[i], cfg)]],
-                  areas |-> [k \in 1..Len(areas) |-> [must |-> MustFail(areas[k]), may |-> MayFail(areas[k])]]]
+                  areas |-> [k \in 1..Len(areas) |-> [must |-> MustFail(areas[k]), may |-> MayFail(areas[k])]],
+                  prisms |-> [k \in 1..Len(areas) |-> [inside |-> {p \in Cloud : InPrism(areas[k], p)}, boundary |-> {p \in Cloud : PrismBoundary(areas[k], p)}]]]
   /\ UNCHANGED <<kind, box, scale, objs, cfg, areas>>
 Next == Eval
 
